@@ -467,6 +467,9 @@ func check(p *prop, repo, tier string, seed int64) int {
 			saveLog(p, r)
 			continue
 		}
+		if strings.Contains(r.out, "VERIF-WATCHDOG") {
+			r.timedOut = true
+		}
 		if r.timedOut {
 			fmt.Printf("INCONCLUSIVE property=%s %s timed out after %s\n", p.ID, r.name, r.dur.Round(time.Second))
 			saveLog(p, r)
